@@ -32,8 +32,12 @@ func init() {
 const (
 	vsMaxBulkDecl  = 1 << 28 // largest declared bulk length (268 MB if the parser believes it)
 	vsMaxArrayDecl = 1 << 23 // largest declared array length (x24 bytes = 201 MB if believed)
-	vsAllocFactor  = 64
-	vsAllocSlack   = 64 << 10
+	// "Out of proportion" is decided with a wide margin: streams of many tiny
+	// frames legitimately cost ~70 bytes of allocation per byte received (error
+	// texts, case folding, reply buffers), while the defect class this bound
+	// exists for (allocating from a declared length) is 10^5-10^8 x.
+	vsAllocFactor  = 256
+	vsAllocSlack   = 256 << 10
 )
 
 // ---------------------------------------------------------------------------
